@@ -2,6 +2,7 @@
 mod common;
 mod latt;
 mod probe;
+mod sched;
 mod tess;
 
 fn main() {
@@ -14,6 +15,7 @@ fn main() {
     let code = match args[1].as_str() {
         "replay-cells" => latt::main_replay(rest),
         "tess" => tess::main_tess(rest),
+        "sched" => sched::main_sched(rest),
         other => {
             eprintln!("unknown subcommand {}", other);
             2
